@@ -47,7 +47,10 @@ func (lookup *TypeLookup) AddUserType(t *UserType) error {
 			return nil
 		case *BuiltinType:
 			// The parser should prevent this from ever happening
-			return &userBaseTypeNameError
+			return &wrapError{
+				innerError: &userBaseTypeNameError,
+				loc:        t.Node.Loc,
+			}
 		case AstNodable:
 			return &wrapError{
 				innerError: &duplicateOfStructTypeError,
@@ -87,8 +90,12 @@ func (lookup *TypeLookup) AddStructType(t *StructType) error {
 				return nil
 			}
 		case *BuiltinType:
-			// The parser should prevent this from ever happening
-			return fmt.Errorf("type name conflicts with a base type")
+			// A stage or pipeline named like a builtin type gets here
+			// through its output struct type.
+			return &wrapError{
+				innerError: &userBaseTypeNameError,
+				loc:        t.Node.Loc,
+			}
 		case AstNodable:
 			return &wrapError{
 				innerError: &duplicateOfStructTypeError,
